@@ -87,12 +87,17 @@ def build(proto):
     for ev in METHOD_EVENTS:
         BaseSvc.event_manager.add_listener(ev, _listener('svc', ev))
 
+    # the method-level manager is attached with each of the four documented keyword spellings, one per protocol pair
+    spelling = {'json': {'_evmgr': method_mgr}, 'xml': {'_event_manager': method_mgr}, 'soap11': {'_event_managers': [method_mgr]},
+                'http-json': {'_evmgrs': [method_mgr]}}.get(proto, {'_evmgr': method_mgr})
+
     class Svc(BaseSvc):          # inherits the service-level listeners
-        @rpc(Integer, Unicode, _returns=Integer, _evmgr=method_mgr)
+        @rpc(Integer, Unicode, _returns=Integer, **spelling)
         def work(ctx, a, s):
             return _work(ctx, a, s)
 
-        @rpc(Integer(ge=0, le=9), _returns=Integer)
+        # http-json: `small` is given the very same list object as `work` (users share such lists between methods)
+        @rpc(Integer(ge=0, le=9), _returns=Integer, **(spelling if proto == 'http-json' else {}))
         def small(ctx, a):
             TRACE.append('fn:small')
             return a
@@ -150,6 +155,10 @@ def out_of(proto):
 
 def request_bytes(proto, kind):
     """(body bytes, extra wsgi env) for the request kinds"""
+    if kind == 'unknown_charset':
+        body, env = request_bytes(proto, 'valid')
+        env['CONTENT_TYPE'] = env.get('CONTENT_TYPE', 'text/plain').split(';')[0] + '; charset=klingon-8'
+        return body, env
     env = {}
     proto = in_of(proto)
     if proto == 'soap11':
@@ -192,7 +201,7 @@ def request_bytes(proto, kind):
 
 
 REQUEST_KINDS = ['valid', 'malformed', 'empty', 'wrong_root', 'unknown_method', 'invalid_arg', 'wrong_kind',
-                 'bad_utf8', 'too_long', 'json_two_keys', 'json_one_item_list', 'json_scalar', 'json_string', 'json_null',
+                 'bad_utf8', 'too_long', 'unknown_charset', 'json_two_keys', 'json_one_item_list', 'json_scalar', 'json_string', 'json_null',
                  'json_nested_list']
 MAX_LEN = 4096
 STAGE_FAILS = ['none', 'call_listener_fault', 'call_listener_exc', 'fn_fault', 'fn_fault_detail', 'fn_exc',
